@@ -859,7 +859,13 @@ func (w *World) convert(x Val, from, to types.Type) Val {
 		return n
 	case Sym:
 		if n.s == 'I' && tb != nil && tb.Info()&types.IsFloat != 0 {
-			return w.roundReal("(to_real " + n.t + ")")
+			r := w.roundReal("(to_real " + n.t + ")")
+			if w.floatRounding {
+				// integers of magnitude up to 2^53 convert exactly
+				d := fmt.Sprintf("fpd_%x", sha1.Sum([]byte("(to_real "+n.t+")")))[:18]
+				w.s.send(fmt.Sprintf("(assert (=> (and (<= %s 9007199254740992) (>= %s (- 9007199254740992))) (= %s 0.0)))", n.t, n.t, d))
+			}
+			return r
 		}
 		if n.s == 'R' && tb != nil && tb.Info()&types.IsInteger != 0 {
 			// out of int64 range (incl. rounding up to 2^63): amd64 yields MinInt64
